@@ -428,3 +428,46 @@ C12_SET_OBSERVED = dict(
     implicit_return="({self_observations}, {self_observation_mask})",     # the two arrays when the method ends
 )
 ALL += [C12_SET_OBSERVED]
+
+# Screen.__init__: the two runs of top-level statements that decide observations / observation_mask (py2gal body_slice).
+# The rest of __init__ (shape and dtype checks of the other arrays, the id encoders = C01, the attribute stores) is not
+# translated here.  pydefaults: the defaults _SCREEN_CALL gives to arguments a call site does not pass.
+_INIT = dict(
+    file="src/batchie/data.py", cls="Screen", func="__init__", out="SrcReveal.v", imports="Model.Encode Model.Screen Model.Reveal",
+    pyparams=["self", "treatment_names", "treatment_doses", "sample_names", "plate_names", "observations", "observation_mask",
+              "control_treatment_name", "treatment_mapping", "sample_mapping"],
+    pydefaults=["None", "None", "''", "None", "None"],
+)
+C12_INIT_OBS = dict(
+    _INIT, name="src_init_observations",
+    body_slice=("if observations is None and observation_mask is not None:", "if observations is not None:"),
+    live_vars=["n_experiment_dimension"],                      # = treatment_names.shape[0]
+    params=[("observations", "opt list Z"), ("observation_mask", "opt list bool"), ("n_experiment_dimension", "Z")],
+    returns="(list Z * list bool)",
+    vars={"observations": "list Z", "observation_mask": "list bool"},     # what they are once defaulted
+    narrow_none=True,
+    prims=[("__a.shape != (__n,)", "negb (Z.of_nat (length {a}) =? {n})", "bool", {"a": "list Z", "n": "Z"}),
+           ("np.issubdtype(observations.dtype, FloatingPointType)", "true", "bool"),      # bit patterns ARE floats
+           ("np.ones((__n,), dtype=bool)", "np_full true {n}", "list bool", {"n": "Z"}),
+           ("np.zeros((__n,), dtype=bool)", "np_full false {n}", "list bool", {"n": "Z"}),
+           ("np.zeros((__n,), dtype=FloatingPointType)", "np_full 0 {n}", "list Z", {"n": "Z"})],     # +0.0 has bit pattern 0
+    raises=[("observation_mask cannot be provided without observations", 7),
+            ("Expected observations to have shape", 14), ("observations must be floats", 13)],
+    implicit_return="({observations}, {observation_mask})",
+)
+C12_INIT_PLATES = dict(
+    _INIT, name="src_init_plate_check",
+    body_slice=("plate_names_unique = np.unique(plate_names)", "for plate_name in plate_names_unique:"),
+    params=[("plate_names", "list name"), ("observation_mask", "list bool")],      # the mask as the first run left it
+    returns="unit",
+    vars={"plate_names_unique": "list name", "plate_name": "name", "plate_mask": "list bool"},
+    prims=[("np.unique(__a)", "sort_uniq name_cmp {a}", "list name", {"a": "list name"}),       # sorted, duplicate-free
+           ("plate_names == plate_name", "np_eq_name plate_names' plate_name'", "list bool"),
+           ("__a[0]", "!list_get {a} 0", "bool", {"a": "list bool"}),                            # IndexError on an empty array
+           ("__a[__m]", "select {m} {a}", "list bool", {"a": "list bool", "m": "list bool"}),
+           ("__a == __b", "np_eq_bool {a} {b}", "list bool", {"a": "list bool", "b": "bool"}),
+           ("np.all(__b)", "np_all {b}", "bool", {"b": "list bool"})],
+    raises=[("has a mixture of observed and not observed outcomes", 2)],
+    implicit_return="tt",
+)
+ALL += [C12_INIT_OBS, C12_INIT_PLATES]
